@@ -24,7 +24,8 @@ Definition readonly_api : list string :=
    "Connect.ReceiveMax"; "Connect.RequestProblemInfo"; "Connect.RequestResponseInfo";
    "Connect.SessionExpiryInterval"; "Connect.String"; "Connect.TopicAliasMax"; "Connect.Username";
    "Connect.Will"; "Connect.WillDelayInterval"; "Connect.WriteTo"; "Connect.dump"; "Connect.fill";
-   "Disconnect.ReasonCode"; "Disconnect.String"; "Disconnect.WriteTo"; "Disconnect.dump";
+   "Disconnect.ReasonCode"; "Disconnect.ReasonString"; "Disconnect.ServerReference";
+   "Disconnect.SessionExpiryInterval"; "Disconnect.String"; "Disconnect.WriteTo"; "Disconnect.dump";
    "Disconnect.fill"; "Disconnect.width"; "Dump"; "Ident.fill"; "Ident.width"; "Malformed.Error";
    "PingReq.String"; "PingReq.WriteTo"; "PingReq.fill"; "PingReq.width"; "PingResp.String";
    "PingResp.WriteTo"; "PingResp.fill"; "PingResp.width"; "PubAck.PacketID"; "PubAck.ReasonCode";
